@@ -5,9 +5,14 @@ import re
 
 s = open("/verif/DESIGN.md").read()
 out = []
+in_main = False
 for line in s.split("\n"):
+    if line.startswith("## 4."):
+        in_main = True
+    elif line.startswith("### 4.1") or line.startswith("## 5."):
+        in_main = False
     m = re.match(r"^\| (C\d\d) \|", line)
-    if m and line.count("|") >= 6 and "obligations / wall" not in line:
+    if in_main and m and line.count("|") >= 6 and "obligations / wall" not in line:
         try:
             e = json.load(open("/verif/evidence/%s.json" % m.group(1)))
         except FileNotFoundError:
